@@ -43,6 +43,42 @@ def build(case):
     return m, items, msgs.encoded_command_set(m), data, ts
 
 
+def verify(case, m, cmd, data, ts, msg, pc_id, sizes):
+    """the reassembled message against what was sent; returns a failure text or None"""
+    import pydicom
+    want_cls = type(m)          # the class the message was built from (its command_field is in the command set)
+    if type(msg) is not want_cls:
+        return 'reassembled as %s, command field %#06x is %s' % (type(msg).__name__, m.command_field, want_cls.__name__)
+    if pc_id != case['pc']:
+        return 'presentation context %r, sent on %d' % (pc_id, case['pc'])
+    if msgs.encoded_command_set(msg) != cmd:
+        return 'command set differs after reassembly'
+    got = msg.data_set
+    if case.get('file') and data is not None:
+        if not hasattr(got, 'read'):
+            return 'SOP class configured for file storage but the data set was kept in memory'
+        content = got.read()
+        got.close()
+        try:
+            ds = pydicom.dcmread(io.BytesIO(content))
+        except Exception as e:  # pylint: disable=broad-except
+            return 'file handed to the application is not a readable DICOM file: %r' % (e,)
+        if ds.file_meta.TransferSyntaxUID != ts:
+            return 'file meta transfer syntax %s, negotiated %s' % (ds.file_meta.TransferSyntaxUID, ts)
+        if not content.endswith(data) or len(content) - len(data) < 132:
+            return ('file data set is not the transmitted bytes (%d bytes sent, file has %d after the header, grouping %r)'
+                    % (len(data), len(content) - 132, sizes))
+        from pynetdicom2 import dsutils
+        if dsutils.encode(ds, ts.is_implicit_VR, ts.is_little_endian) != data:
+            return 'data set read back from the file differs from the transmitted one'
+        got_bytes = data
+    else:
+        got_bytes = got if got is not None else None
+        if (got_bytes or b'') != (data or b''):
+            return 'data set bytes differ after reassembly (grouping %r)' % (sizes,)
+    return None
+
+
 def run_grouping(case, m, items, cmd, data, ts, sizes):
     """feed the real decoder; returns (failure or None, impl trace text)"""
     from pynetdicom2 import fsm, pdu, asceprovider as ap, applicationentity as aem, dimsemessages as dm
@@ -67,40 +103,111 @@ def run_grouping(case, m, items, cmd, data, ts, sizes):
             return ('completion signalled %s: receiving=%s after PDU %d of %d (grouping %r)'
                     % ('too late' if last else 'too early', dec.receiving, k + 1, len(sizes), sizes)), 'x'
         trace.append('recv' if dec.receiving else 'done')
-    msg = dec.msg
-    want_cls = type(m)          # the class the message was built from (its command_field is in the command set)
-    if type(msg) is not want_cls:
-        return 'reassembled as %s, command field %#06x is %s' % (type(msg).__name__, m.command_field, want_cls.__name__), 'x'
-    if dec.pc_id != case['pc']:
-        return 'presentation context %r, sent on %d' % (dec.pc_id, case['pc']), 'x'
-    if msgs.encoded_command_set(msg) != cmd:
-        return 'command set differs after reassembly', 'x'
-    got = msg.data_set
-    if case.get('file') and data is not None:
-        if not hasattr(got, 'read'):
-            return 'SOP class configured for file storage but the data set was kept in memory', 'x'
-        content = got.read()
-        got.close()
-        try:
-            ds = pydicom.dcmread(io.BytesIO(content))
-        except Exception as e:  # pylint: disable=broad-except
-            return 'file handed to the application is not a readable DICOM file: %r' % (e,), 'x'
-        if ds.file_meta.TransferSyntaxUID != ts:
-            return 'file meta transfer syntax %s, negotiated %s' % (ds.file_meta.TransferSyntaxUID, ts), 'x'
-        if not content.endswith(data) or len(content) - len(data) < 132:
-            return ('file data set is not the transmitted bytes (%d bytes sent, file has %d after the header, grouping %r)'
-                    % (len(data), len(content) - 132, sizes)), 'x'
-        from pynetdicom2 import dsutils
-        if dsutils.encode(ds, ts.is_implicit_VR, ts.is_little_endian) != data:
-            return 'data set read back from the file differs from the transmitted one', 'x'
-        got_bytes = data
-    else:
-        got_bytes = got if got is not None else None
-        if (got_bytes or b'') != (data or b''):
-            return 'data set bytes differ after reassembly (grouping %r)' % (sizes,), 'x'
+    fail = verify(case, m, cmd, data, ts, dec.msg, dec.pc_id, sizes)
+    if fail:
+        return fail, 'x'
     final = 'recv=false cmdDone=true dataDone=%s pc=%d cmd=%s data=%s' % (
         'true' if data else 'false', dec.pc_id, cmd.hex(), (data or b'').hex())
     return None, ' '.join(trace[:-1] + ['done ' + final])
+
+
+def machine_case(case):
+    """several messages in a row through the REAL provider loop and state machine (DT-2 in Sta6, AR-6 in Sta7):
+    every message must be indicated exactly at the pass that processes its last PDU, intact, and the next one
+    must start from a clean decoder.  Returns a failure text or None."""
+    from pynetdicom2 import pdu, asceprovider as ap, applicationentity as aem
+    from . import s2, scen
+    built = [build(c) for c in case['msgs']]
+    ae = aem.AEBase(None, 65536)
+    store = frozenset(b[0].sop_class_uid for c, b in zip(case['msgs'], built) if c.get('file'))
+    s2.install()
+    s2.Clock.now = 1000.0
+    if case['role'] == 'acc':
+        p, sock = s2.acceptor(store_in_file=store, get_file_cb=ae.get_file)
+        p.step()
+        sock.feed(scen.rq_pdu().encode()); p.step(); p.drain_user()
+        p.send(scen.ac_pdu()); p.step()
+    else:
+        p = s2.requester(store_in_file=store, get_file_cb=ae.get_file)
+        p.send(scen.rq_pdu()); p.step()
+        sock = s2.LAST['sock']
+        p.step()
+        sock.feed(scen.ac_pdu().encode()); p.step(); p.drain_user()
+    if p.state != 6:
+        return 'harness could not establish the association (Sta%d)' % p.state
+    p.accepted_contexts = {c['pc']: ap.PContextDef(c['pc'], b[0].sop_class_uid, b[4]) for c, b in zip(case['msgs'], built)}
+    if case['state'] == 7:
+        p.send(pdu.AReleaseRqPDU()); p.step()
+        if p.state != 7:
+            return 'harness could not reach Sta7 (Sta%d)' % p.state
+    del sock.sent[:]
+    # the PDUs of all messages, each tagged with (message index, is last PDU of its message)
+    plan = []
+    for i, (c, b, sizes) in enumerate(zip(case['msgs'], built, case['sizes'])):
+        items, pos = b[1], 0
+        for k, sz in enumerate(sizes):
+            plan.append((i, k == len(sizes) - 1, pdu.PDataTfPDU(items[pos:pos + sz]).encode()))
+            pos += sz
+    if case['burst']:
+        sock.feed(b''.join(x[2] for x in plan))
+    done = 0
+    for n, (i, last, raw) in enumerate(plan):
+        if not case['burst']:
+            sock.feed(raw)
+        e = p.step()
+        if e is not None:
+            return 'provider loop died at PDU %d: %r' % (n + 1, e)
+        got = p.drain_user()
+        where = 'PDU %d (message %d of %d, %s) in Sta%d' % (n + 1, i + 1, len(built), 'its last' if last else 'not its last', case['state'])
+        if sock.sent:
+            return 'provider sent %s after %s' % (sock.sent[0][:10].hex(), where)
+        if p.state != case['state']:
+            return 'state Sta%d after %s' % (p.state, where)
+        if last != (len(got) == 1) or len(got) > 1:
+            return '%d indication(s) after %s' % (len(got), where)
+        if last:
+            msg, pc_id = got[0]
+            m, _, cmd, data, ts = built[i]
+            f = verify(case['msgs'][i], m, cmd, data, ts, msg, pc_id, case['sizes'][i])
+            if f:
+                return 'message %d of %d in Sta%d: %s' % (i + 1, len(built), case['state'], f)
+            done += 1
+    for _ in range(2):
+        p.step()
+    if p.drain_user():
+        return 'extra indication after the last message'
+    return None
+
+
+def machine_cases(rnd, tier):
+    ncls = len(msgs.classes())
+    names = [k.__name__ for k in msgs.classes()]
+    echo, find_rsp, store = names.index('CEchoRQMessage'), names.index('CFindRSPMessage'), names.index('CStoreRQMessage')
+    seqs = [
+        [{'cls': echo, 'pc': 1, 'maxlen': 0, 'data': None}] * 2,
+        [{'cls': find_rsp, 'pc': 5, 'maxlen': 60, 'data': 30 + 7 * k} for k in range(4)],
+        [{'cls': store, 'pc': 7, 'maxlen': 64, 'data': 20, 'file': True, 'ts': 0}, {'cls': store, 'pc': 7, 'maxlen': 64, 'data': 3, 'file': True, 'ts': 0}],
+        [{'cls': store, 'pc': 9, 'maxlen': 50, 'data': 90, 'file': True, 'ts': 2}, {'cls': echo, 'pc': 1, 'maxlen': 30, 'data': None},
+         {'cls': find_rsp, 'pc': 5, 'maxlen': 44, 'data': 61},
+         {'cls': store, 'pc': 7, 'maxlen': 70, 'data': 40, 'file': True, 'ts': 1}],
+        [{'cls': (3 * k + 1) % ncls, 'pc': 11 + 2 * k, 'maxlen': 40, 'data': (None, 25)[k % 2]} for k in range(3)],
+    ]
+    out = []
+    for state in (6, 7):
+        for role in ('acc', 'req'):
+            for si, seq in enumerate(seqs):
+                ns = [len(build(c)[1]) for c in seq]
+                groupings = [[[1] * n for n in ns], [[n] for n in ns]]
+                for _ in range(2 if tier == 'quick' else 12):
+                    g = []
+                    for n in ns:
+                        cuts = sorted(rnd.sample(range(1, n), rnd.randrange(0, min(n - 1, 4) + 1))) if n > 1 else []
+                        g.append([b - a for a, b in zip([0] + cuts, cuts + [n])])
+                    groupings.append(g)
+                for g in groupings:
+                    for burst in (False, True):
+                        out.append({'machine': True, 'state': state, 'role': role, 'msgs': seq, 'sizes': g, 'burst': burst})
+    return out
 
 
 def model_op(case, items, data, sizes):
@@ -112,6 +219,8 @@ def model_op(case, items, data, sizes):
 
 
 def replay(case):
+    if case.get('machine'):
+        return machine_case(case)
     m, items, cmd, data, ts = build(case)
     fail, _ = run_grouping(case, m, items, cmd, data, ts, case['sizes'])
     return fail
@@ -123,6 +232,8 @@ def run(chk):
                 'to the real DIMSEDecoder: ALL 2^(n-1) compositions for fragment lists up to n=%d, seeded random '
                 'compositions beyond; in memory and file-backed (AEBase.get_file, file re-read with pydicom.dcmread); '
                 'all 23 command fields; receiving checked after every PDU; traces compared with the Lean model Dec.run; '
+                'sequences of 2-4 messages back to back through the real provider loop in Sta6 (DT-2) and Sta7 (AR-6), both '
+                'roles, one PDU per segment and everything in one burst: one indication exactly at each last PDU; '
                 'non-trivial = grouping with at least one PDU carrying several PDVs' % (8 if tier == 'quick' else 11))
     chk.trusted += ['harness/c07.py oracle', 'pydicom dcmread / write_file_meta_info (file readability)']
     chk.assumptions += ['the command-set decoder (pydicom) is a parameter of the model: noDs is the flag the sender set']
@@ -173,6 +284,17 @@ def run(chk):
         if w != g:
             chk.broke('correspondence Dec.run', 'model %s\nimpl  %s' % (w[:300], g[:300]), key)
             break
+    # several messages in a row through the real loop and state machine, in Sta6 (DT-2) and Sta7 (AR-6)
+    for mc in machine_cases(rnd, tier):
+        try:
+            fail = machine_case(mc)
+        except Exception as e:  # pylint: disable=broad-except
+            common.raise_for(common.describe_exc(e))
+        chk.case(repr(mc), True, {'through': 'provider loop', 'state': mc['state'], 'role': mc['role'], 'messages': len(mc['msgs']),
+                                  'burst': mc['burst']} if mc['burst'] and len(mc['msgs']) > 2 and mc['state'] == 7 and len(chk.samples) < 12 else None)
+        chk.count('machine:Sta%d' % mc['state']); chk.count('machine:messages=%d' % len(mc['msgs']))
+        if fail:
+            chk.violation('C07:machine:' + fail[:24], fail, mc)
     from . import extract
     rows, changed = extract.gen_message_types()
     chk.extra['message_types_generated_changed'] = changed
